@@ -24,7 +24,7 @@ def load_corpus(pid):
     return out
 
 
-def build(mod, ties, log):
+def build(mod, ties, log, tier="quick"):
     """Regenerate + compile. Returns dict with obligations info. Appends to `ties` on failure."""
     info = {"obligations": 0, "discharged": 0, "assumptions_printed": {}, "theorems": [],
             "model_ok": False, "gate": []}
@@ -100,6 +100,14 @@ def build(mod, ties, log):
                     ties.append({"what": "theorem %s depends on undeclared axioms %s" % (thm, extra),
                                  "theorem_or_correspondence": thm, "detail": b})
                     return info
+        if tier == "thorough":
+            ok, axioms, tail = core.coqchk(mod.PROPS_FILE)
+            info["coqchk"] = {"ok": ok, "axioms": axioms}
+            if not ok:
+                ties.append({"what": "coqchk rejects the compiled development",
+                             "theorem_or_correspondence": "coqchk(%s)" % mod.PROPS_FILE,
+                             "detail": tail})
+                return info
         info["discharged"] = info["obligations"]
     return info
 
@@ -137,7 +145,7 @@ def run_check(pid, tier, seed, replay=None):
     findings = core.load_findings()
     ties = []
     log = []
-    info = build(mod, ties, log)
+    info = build(mod, ties, log, tier)
     t_build = time.time() - t0
 
     rng = random.Random(seed)
@@ -305,6 +313,7 @@ def run_check(pid, tier, seed, replay=None):
         "not_runnable": list(getattr(mod, "NOT_RUNNABLE", [])),
         "timing_s": {"build": round(t_build, 1), "impl": round(t_impl, 1), "coq_cases": round(t_coq, 1)},
         "repo_head": core.git_head(core.REPO), "exhaustive": False,
+        "coqchk": info.get("coqchk", "thorough tier only"),
     }
     if hasattr(mod, "extra_coverage"):
         coverage.update(mod.extra_coverage(cases, results, tier))
